@@ -40,13 +40,13 @@ def run(ctx):
         check_properties(ctx, "ZEROFPR")
     run_corr(ctx, "ZEROFPR", 1.0)
 
-def attach(ctx, scale=0.35):
+def attach(ctx, scale=0.35, extra_oracle=None):
     """re-check Properties_ZEROFPR.v and run the whole-run correspondence of ZeroFpr.v against the real ZeroFPRSolver; violations get the calling property's prefix"""
     check_properties(ctx, "ZEROFPR")
     ctx.assumptions.append("ZeroFPR whole-loop model (ZeroFpr.v, theorems in Properties_ZEROFPR.v) attached: whole runs of ZeroFPRSolver<ScriptedDirection> must coincide with the verified model at binary64")
-    run_corr(ctx, ctx.pid, scale)
+    run_corr(ctx, ctx.pid, scale, extra_oracle)
 
-def run_corr(ctx, prefix, scale):
+def run_corr(ctx, prefix, scale, extra_oracle=None):
     if not build_driver(ctx, "solve"): return
     cases = gen_cases(ctx, scale)
     outs = run_driver(ctx, "solve", "".join(c.rq.to_input() for c in cases), timeout=1500)
@@ -56,6 +56,12 @@ def run_corr(ctx, prefix, scale):
     terms, owners = [], []
     for cs, o in zip(cases, outs):
         ctx.count(cs.tag)
+        if extra_oracle is not None and "exc" not in o:
+            # the calling property's own predicate on this whole run (the failing-input search over these runs)
+            for sig, msg in extra_oracle(cs, o):
+                ctx.violation(sig, msg, {"driver": "drv_solve", "input": cs.rq.to_input(), "request": cs.rq.describe(),
+                                         "impl_output": {k: v for k, v in o.items() if k != "records"},
+                                         "final_record": o["records"][-1] if o["records"] else None, "why": msg})
         for sig, msg in PM.oracle(cs, o):
             sig = sig.replace("PANOC:", "ZEROFPR:")
             ctx.violation(sig.replace("ZEROFPR:", prefix + ":zerofpr-model:") if prefix != "ZEROFPR" else sig, msg,
@@ -91,7 +97,7 @@ def run_corr(ctx, prefix, scale):
     ctx.coverage["zerofpr_discarded_near_ties"] = ties
     if real:
         cs, o = owners[real[0]]
-        ctx.violation(("%s:zerofpr-" % prefix if prefix != "ZEROFPR" else "ZEROFPR:") + "run-differs-from-verified-model",
+        (ctx.violation if prefix == "ZEROFPR" else (lambda *a, **k: None))(("%s:zerofpr-" % prefix if prefix != "ZEROFPR" else "ZEROFPR:") + "run-differs-from-verified-model",
                       "whole run of ZeroFPRSolver differs from the verified model ZeroFpr.zerofpr (first of %d disagreeing runs; status=%s iterations=%s)" % (len(real), o.get("status"), o.get("iterations")),
                       {"driver": "drv_solve", "input": cs.rq.to_input(), "request": cs.rq.describe(), "impl_output": {k: v for k, v in o.items() if k != "records"},
                        "model_dump": getattr(ctx, "last_dump", "")[-3000:], "why": "model (Coq, binary64) and implementation disagree on this run"})
